@@ -1100,8 +1100,8 @@ fn phase5(first: &str, minimal: bool, report: &mut Report, v: &mut Vec<Violation
         return;
     }
     let after_marker = |out: &[u8]| -> Vec<u8> {
-        let marker = b"Running emitted binary\n";
-        out.windows(marker.len()).position(|w| w == marker).map(|at| out[at + marker.len()..].to_vec()).unwrap_or_default()
+        let marker = &crate::world_b::framing().before;
+        out.windows(marker.len()).position(|w| w == &marker[..]).map(|at| out[at + marker.len()..].to_vec()).unwrap_or_default()
     };
     if let Some(what) = &run.stalled {
         v.push(Violation::new(
